@@ -126,12 +126,15 @@ PROPS = {
                  "TLC generates (depth, cell, index) for all cells of depths 0..4 (0..6) and base-cell corner/border classes up to depth 29, "
                  "replayed through to_ring and from_ring; recorded to_ring / from_ring / ring-centre calls on ring-boundary classes "
                  "(first/last cell of rings 1,2,3,N-1,N,N+1,2N,3N-1,3N,3N+1,4N-2,4N-1 and random rings) at all depths are validated by the trace spec, "
-                 "including that the RING-scheme centre of r lies inside the cell of rank r and equals the NESTED centre of from_ring(r).",
+                 "including that the RING-scheme centre of r lies inside the cell of rank r and equals the NESTED centre of from_ring(r). "
+                 "RingAlgo.tla transcribes to_ring / from_ring branch for branch (cap / equatorial / base-cell-4 wrap, depth0_hash_unsafe, "
+                 "polar_ring_index) and MC_RingAlgo shows both refine the rank definition and are mutually inverse on every cell of N in {1,2,4,8} (16 thorough).",
         "rule": "events = to_ring(cell) with round trip, from_ring(index), ring::center(nside, r) vs Layer::center(from_ring r); indices biased to "
                 "ring boundaries; judged by TLC with HpxRing!ToRing; non-trivial = every distinct event (all are boundary-biased)",
         "assumptions": GEO_ASSUME,
         "stages": [
             {"kind": "mc", "module": "MC_Ring", "cfg": {"quick": "MC_Ring.cfg", "thorough": "MC_Ring_thorough.cfg"}, "workers": 6},
+            {"kind": "mc", "module": "MC_RingAlgo", "cfg": {"quick": "MC_RingAlgo.cfg", "thorough": "MC_RingAlgo_thorough.cfg"}, "workers": 4},
             {"kind": "gen", "module": "Gen_Ring", "cfg": {"quick": "Gen_Ring_pairs.cfg", "thorough": "Gen_Ring_pairs_thorough.cfg"}, "scenario": "C10", "exhaustive": True},
             {"kind": "rec", "scenario": "C10", "count": {"quick": 15000, "thorough": 300000}, "trace_module": "Trace_Geo", "trace_cfg": "Trace_Geo.cfg"},
         ],
